@@ -526,6 +526,10 @@ func (g *Gen) frameWrite(comp, ref string) {
 		return
 	}
 	conds := []string{fmt.Sprintf("(> %s %s)", ref, g.frameNow0)}
+	if strings.HasPrefix(comp, "E$") {
+		// the nil slice has no elements: nothing is written through it
+		conds = append(conds, fmt.Sprintf("(= %s 0)", ref))
+	}
 	for _, a := range g.frameAllowed[comp] {
 		if a == "*" {
 			return
